@@ -455,7 +455,9 @@ func (r *runner) quiesce(a *dht.Announce) error {
 				r.mu.Lock()
 				held := r.annHeld
 				r.mu.Unlock()
-				ok = an+held > 0 && sim.CountGoroutines("(*Server).announcePeer") == an+held
+				n := sim.CountGoroutines("(*Server).announcePeer")
+				// (nothing in flight any more and still not finished: for the caller's final wait on Finished() to judge)
+				ok = n == an+held
 			}
 			sig := [3]int{s.Outstanding, an, undeliv}
 			if ok && sig == last {
